@@ -24,8 +24,10 @@ TRUSTED_BASE = ["the key of the collector is modelled as the canonical form that
                 "harness/cmd/extract-clone (about 200 lines of go/parser + go/ast, purely syntactic, no type checking): regenerates "
                 "Gen/CloneFacts.lean from $VERIF_REPO/clone/clone.go on every run — the synchronisation vocabulary (go, chan element types, "
                 "close, select, sync types, watched method names) of the functions reachable by name from CircularLigate, the number of "
-                "functions receiving from a chan string, whether one is sent on; clone_structure_pinned compares it with the vocabulary the "
-                "Step system is written in. It pins the vocabulary, not the layout (goroutine count, buffering, order of statements)",
+                "functions receiving from a chan string, whether one is sent on, and four order facts (Add immediately before each worker go, "
+                "defer Done first in the worker body, close of the construct channel after a waiting statement, collector go before the "
+                "waiting statement); clone_structure_pinned compares them with what the Step rules assume. Not pinned: goroutine count and "
+                "buffering (a buffered construct channel is syntactically the harmless rewrite C09-h3)",
                 "CutWithEnzymeByName is a parameter of the GoldenGate model (C10); GoldenGate = CircularLigate on the concatenated cuts is "
                 "checked at implementation level on every gg case (model run on the real cuts; real cuts compared with an independent layout)"]
 ASSUMPTIONS = ["fragments and parts are ACGT (parts in either case; CutWithEnzyme upper-cases them)",
@@ -76,7 +78,7 @@ LEVEL_NOTE = ("Trusted: Lean kernel; harness + driver; the Go runtime is represe
               "clone.go 264-343 (races not expressible; a change of the goroutine structure is seen only by the GOMAXPROCS 1/2/16 and -race "
               "runs on a sample of cases, 20 repetitions each); BLAKE3 collision-freeness; C12 for the least rotation. A change of clone.go that brings a "
               "new synchronisation mechanism into the functions under CircularLigate (mutex, semaphore channel, select, sync.Map, second "
-              "collector, no channel) breaks clone_structure_pinned and is reported as VIOLATION … no-failing-input-found even if all results "
+              "collector, no channel), or that changes the Add/go, defer-Done, Wait/close or collector/Wait order, breaks clone_structure_pinned and is reported as VIOLATION … no-failing-input-found even if all results "
               "stay the same — an accepted alarm: the schedule model is then no longer shown to describe the code; the harmless rewrites "
               "seeded-harmless/C09-h1..3 and C10-h1..3 (helpers, range over the channel, buffered channel, one goroutine per seed, sync.Once "
               "in the enzyme table) leave the facts unchanged. Palindromic junction "
@@ -84,7 +86,12 @@ LEVEL_NOTE = ("Trusted: Lean kernel; harness + driver; the Go runtime is represe
               "remaining cases of the run: only in-quantifier requests are counted, the record lives in build/C09 keyed by the check process and "
               "its start time and is removed when the run begins and ends; a not-run reply that does not name three in-quantifier hung requests "
               "is judged FAIL. The ring walks are cross-checked against brute force on pools of <= 5 values, and of 6 / 7 values in the bf6 / bf7 "
-              "case families. A race report is attributed to the request that notices it, which can be the one after the racy call.")
+              "case families. A race report is attributed to the request that notices it, which can be the one after the racy call. The judge's ring "
+              "enumerators are proved correct for pools of every size (judge_rings_sound / judge_rings_exact / judge_simple_rings_exact / "
+              "judge_oneLap_exact: the sets of ring LISTS are exactly the spec's rings / simple rings / one-lap rings); what is not proved "
+              "about the judge is downstream of the rings: the linear-time canonical form keyFast (compared with the proved key on every "
+              "returned construct of <= 200 letters), the ring-code deduplication (an optimisation: one representative per rotation/strand "
+              "class) and the sorting of key lists.")
 HARNESS_BIN = "run-clone"
 EXTRACT_BINS = ["extract-clone"]
 TIMEOUT_MS = 10000
